@@ -628,6 +628,15 @@ def run(ctx):
                         ctx.note("C16.keys: cannot see which key the arm `{}` builds; not decided".format(short(arm, 50)))
                         continue
                 bad = [x for x in ast.walk(arm_key) if isinstance(x, ast.Call) and isinstance(x.func, ast.Attribute) and x.func.attr in CASE]
+                # any other transformation of a class's name (a helper such as pascal_to_upper_camelcase, .replace(...))
+                # equally departs from what the routes write; str() / get_value() are identities here
+                other = [
+                    x
+                    for x in ast.walk(arm_key)
+                    if isinstance(x, ast.Call) and x not in bad and norm(x.func).rpartition(".")[2] not in ("str", "get_value")
+                ]
+                if not table_only and not bad and other:
+                    bad = other
                 ok = table_only or not bad
                 ctx.ob(
                     "C16.keys",
@@ -636,9 +645,9 @@ def run(ctx):
                     ok,
                     ""
                     if ok
-                    else "the schema key of a class model is `{}`: `.{}()` re-capitalises the name (\"UserProfile\" -> \"Userprofile\", "
-                    "\"user_profile\" -> \"User_Profile\"), while the routes refer to `#/components/schemas/<ClassName>`: every $ref of "
-                    "a multi-word model dangles".format(short(arm_key, 60), bad[0].func.attr),
+                    else "the schema key of a class model is `{}`: `{}` rewrites the name (\"UserProfile\" -> \"Userprofile\", "
+                    "\"user_profile\" -> \"User_Profile\", \"Order_Item\" -> \"OrderItem\"), while the routes refer to "
+                    "`#/components/schemas/<ClassName>`: every $ref of a multi-word model dangles".format(short(arm_key, 60), short(bad[0].func, 40)),
                     line=getattr(arm_key, "lineno", ob.node.lineno),
                 )
         ctx.count("schema_key_arms", n_arms)
